@@ -37,6 +37,11 @@ CHECKS = {
     note='Trusted: z3, symx executor, the Cython->Python transliterator (cross-checked against the compiled module whenever that is in sync with the source), published compliances written in the harness. pow/tgamma/cos/sin are atoms with axioms. Replay runs the transliterated current source with floats (Cython is not available to rebuild).',
     technique='Cython source transliteration + path-exploring symbolic execution + z3 nonlinear real arithmetic / strings',
     design='2/C07'),
+ 'C15': dict(
+    text='Bounded SMT validity checking: calculate_strain_stress / calculate_volumetric_heating / calculate_displacements executed on a 2x2x2x1 grid of distinct complex symbols; z3 decides Hooke law component-wise, the three radial tractions (given the degree-l Laplace identity), the heating form == 2 Im(mu)|dev eps|^2 + Im(K)|tr eps|^2, its non-negativity (Cauchy-Schwarz query), the abs step on arbitrary inputs and vanishing for real moduli.',
+    note='Trusted: z3, symx executor (numpy object arrays of symbolic values). Degree l in 2..3 quick / 2..10 thorough.',
+    technique='symbolic execution on a small symbolic grid + z3 nonlinear real arithmetic',
+    design='2/C15'),
 }
 NOT_YET = {}
 ALL = ['C%02d' % i for i in range(1, 21)]
